@@ -42,7 +42,12 @@ mod world;
 
 /// The simulator's side of the seam in fst-bin/src/merge.rs.
 pub mod verif_seam {
-    pub use shuttle::thread;
+    /// shuttle's thread API, plus the few std items that have no simulated
+    /// twin and need none (they do not synchronise)
+    pub mod thread {
+        pub use shuttle::thread::*;
+        pub use std::thread::available_parallelism;
+    }
 
     use std::path::PathBuf;
     use std::sync::Mutex;
